@@ -176,6 +176,13 @@ def _ds_cases(ctx):
         out.append(_case(rng, to_df=True, cases=True, shuffle=seed))
     for _ in range(20):
         out.append(_case(rng, to_df=False, auto=True))
+    # the labelled entry points with the process-pool options (parallel=True / parallel=n / num_workers=n)
+    for name in ('parallel_true', 'num_workers', 'parallel_int') * (2 if ctx.tier == 'quick' else 10):
+        for to_df in (False, True):
+            c = _case(rng, to_df=to_df, auto=False)
+            c['strategy'] = {'name': name, **({'shuffle': rng.randint(1, 50)} if rng.random() < 0.5 else {})}
+            if c['entry'] in ('runner', 'runner_df', 'label'): c['reuse'] = False
+            out.append(c)
     for i in range(800 if ctx.tier == 'quick' else 9000):
         out.append(_case(rng))
     for c in out:
